@@ -360,7 +360,7 @@ def check(ctx):
     ctx.ob("R4", f"{SP}:cmds_to_specs", "a residual-sentinel test (`_stdout is _PIPE_ALL or _stderr is _PIPE_ERR`) raises XonshError", ok, key="cmds_to_specs|no-residual-check", where=loc(c2s))
     if resid is not None:
         loop = next((a for a in ancestors(resid.ast) if isinstance(a, ast.For)), None)
-        over_specs = loop is not None and unparse(loop.iter) == "specs"
+        over_specs = loop is not None and isinstance(loop.iter, ast.Name) and loop.iter.id in returned_names(c2s)
         ctx.ob("R4", f"{SP}:cmds_to_specs", "the residual check visits every spec", over_specs, key="cmds_to_specs|residual-not-all-specs", where=loc(resid.ast))
         rets = [n for n in ccfg.nodes if n.kind == "stmt" and isinstance(n.ast, ast.Return)]
         ln = node_in(ccfg, loop) if loop is not None else [resid]
